@@ -71,9 +71,14 @@ class Learner(BaseEstimator):
     def __init__(self, alpha=1):
         self.alpha = alpha
 
+    refits = []
+
     def fit(self, X, y):
         self.k_ = Learner.count
         Learner.count += 1
+        self.n_fits_ = getattr(self, "n_fits_", 0) + 1
+        if self.n_fits_ > 1:
+            Learner.refits.append(self.n_fits_)
         return self
 
     def predict(self, X):
@@ -141,14 +146,19 @@ def sc_corr(cfg):
         cells = [[data[i, j] for j in range(nvar)] for i in range(nrow)]
         half = nrow // 2
         results = []
+        Learner.refits = []
+        proto = Learner()
         for branch in ("array", "frame"):
             Learner.count, Learner.table = 0, dict(Learner.table) if branch == "frame" else {}
             Learner.count = 0
             arg = data if branch == "array" else FakeFrame(data, [f"c{j}" for j in range(nvar)])
             with harness.patched(cm, numpy=_NP(), scale=lambda d: numpy.asarray(d.values_ if isinstance(d, FakeFrame) else d), train_test_split=lambda d, test_size=0.5: (d[:half], d[half:])):
-                res = cm.non_linear_correlations(arg, Learner(), draws=draws, minmax=cfg["minmax"])
+                res = cm.non_linear_correlations(arg, proto, draws=draws, minmax=cfg["minmax"])
             results.append(res)
         (ra, rf) = results
+        # each (i, j, draw) is learnt by its own fresh clone: the model given is never trained, no clone twice
+        # (a warm-starting model would carry what it learnt for one pair over to the next)
+        C.true(not hasattr(proto, "k_") and Learner.refits == [], "one-fresh-clone-per-pair(the-model-parameter-is-never-trained)", detail=Learner.refits[:3])
         if cfg["minmax"]:
             C.true(isinstance(ra, tuple) and len(ra) == 3 and isinstance(rf, tuple) and len(rf) == 3, "minmax-returns-three-matrices")
             cor_a, mini_a, maxi_a = ra
@@ -270,6 +280,20 @@ def run_config(cfg):
 
 
 def replay(cfg, inputs, label):
+    if label.startswith("one-fresh-clone-per-pair"):
+        # the consequence on the real function: a warm-starting model able to learn the identity keeps a unit diagonal
+        cm = loader.load("metrics.correlations")
+        from sklearn.ensemble import BaggingRegressor
+        from sklearn.linear_model import LinearRegression
+
+        rng = numpy.random.RandomState(0)
+        tab = rng.randn(40, 3)
+        numpy.random.seed(0)
+        model = BaggingRegressor(LinearRegression(), n_estimators=3, warm_start=True, random_state=0)
+        cor = numpy.asarray(cm.non_linear_correlations(tab, model, draws=2), dtype=float)
+        if not numpy.allclose(numpy.diag(cor), 1.0, atol=1e-9) or hasattr(model, "estimators_"):
+            return True, dict(model="BaggingRegressor(LinearRegression(), warm_start=True)", diagonal=numpy.diag(cor).tolist(), model_parameter_was_trained=hasattr(model, "estimators_"))
+        return False, "unit diagonal with a warm-starting model"
     return harness.replay_scenario(SCEN[cfg["kind"]](cfg), inputs, label, "raises")
 
 
